@@ -156,12 +156,12 @@ Members == Cases(fam.h, fam.op)
 Injective(S) == Cardinality({NF(c) : c \in S}) = Cardinality(S)
 
 \* always TRUE: a collision is a design finding, printed with the pair; the check confirms it on the
-\* real code before it counts
-Separates ==
-  LET S == Members IN
+\* real code before it counts.  Every member is printed for the replay on the real hashers.
+Report(S) ==
   IF Injective(S) THEN PrintT(<<"FAMILY", ToJson([h |-> fam.h, op |-> fam.op, members |-> Cardinality(S)])>>)
   ELSE \A x \in S : \A y \in S :
          (x # y /\ NF(x) = NF(y)) => PrintT(<<"COLLISION", ToJson([x |-> x, y |-> y])>>)
-
-Emit == \A c \in Members : PrintT(<<"REPLAY", ToJson(c)>>)
+Emit(S) == \A c \in S : PrintT(<<"REPLAY", ToJson(c)>>)
+Separates == LET S == Members IN Report(S) /\ Emit(S)
+SeparatesOnly == Report(Members)
 =============================================================================
